@@ -1310,6 +1310,13 @@ class ContactHandler(Messenger, dbus.service.Object):
     def send_buffer_drained(self):
         self._check_sess_term()
 
+    def recv_raw(self, data):
+        Messenger.recv_raw(self, data)
+        # the message which ended the last transfer may have been followed,
+        # in the same read, by one which needs nothing done (a KEEPALIVE)
+        if self.get_app_socket() is not None:
+            self._check_sess_term()
+
     def recv_sess_term(self, reason):
         Messenger.recv_sess_term(self, reason)
 
